@@ -217,8 +217,8 @@ class RecType(object):
 
 
 class ARange(object):
-    def __init__(self, lo, hi):
-        self.lo, self.hi = lo, hi
+    def __init__(self, lo, hi, desc=False):
+        self.lo, self.hi, self.desc = lo, hi, desc
 
 
 class ACollection(object):
@@ -904,7 +904,7 @@ class Frame(object):
             items = list(it.keys())
         elif isinstance(it, ARange):
             # one generic iteration
-            I.path.effects.append(("loop", "range", it.lo, it.hi))
+            I.path.effects.append(("loop", "range-desc" if it.desc else "range", it.lo, it.hi))
             if not I.ge0(Aff.of(it.hi) - Aff.of(it.lo) - 1):
                 self.block(st.orelse)
                 return
@@ -1190,6 +1190,9 @@ class Frame(object):
         if isinstance(base, AList) and not base.generic:
             if all(isinstance(x, (int, type(None))) for x in (lo, hi)):
                 return AList(base.items[lo:hi], I.loop_depth)
+        if isinstance(base, ACollection):
+            # part of the input collection
+            return ACollection("%s[%s:%s]" % (base.name, "" if lo is None else lo, "" if hi is None else hi), base.make_elem)
         self.unsupported(node, "slice of %r" % (base,))
 
     def index(self, base, idx, node):
@@ -1966,6 +1969,8 @@ def lib_call(fr: Frame, dotted: str, args, kwargs, node):
         if isinstance(v, ARec):
             return RecType(v.circular)
         return Term("type", _t(v))
+    if dotted == "builtins.reversed" and len(args) == 1 and isinstance(args[0], ARange):
+        return ARange(args[0].lo, args[0].hi, desc=not args[0].desc)
     if dotted == "builtins.enumerate":
         return Term("enumerate", _t(args[0]))
     if dotted == "builtins.list":
